@@ -18,6 +18,7 @@
 package simhook
 
 import (
+	"runtime"
 	"strings"
 	"sync/atomic"
 )
@@ -42,4 +43,20 @@ func Yield(point string, key ...string) {
 	if h := hook.Load(); h != nil {
 		(*h)(point, strings.Join(key, "/"))
 	}
+}
+
+var spin atomic.Bool
+
+// SetSpinWait makes polling waits (cache-sync polls) retry without sleeping. Under a simulated clock a
+// poller that sleeps while holding a lock would otherwise stop virtual time for every goroutine that
+// needs the lock.
+func SetSpinWait(on bool) { spin.Store(on) }
+
+// SpinWait reports whether a polling wait should retry at once instead of sleeping.
+func SpinWait() bool {
+	if !spin.Load() {
+		return false
+	}
+	runtime.Gosched()
+	return true
 }
